@@ -38,6 +38,7 @@ fn arg_tag(s: &str) -> &'static str {
         "--get" | "--get-regexp" | "--get-all" => "get", "--list" | "list" | "-l" => "listFlag", "--stdin" => "stdinFlag",
         "HEAD" => "headLit", "-d" | "--delete" => "deleteFlag", "--verify" => "verify", "-q" | "--quiet" => "quietFlag",
         "--batch" | "--batch-check" | "--batch-all-objects" => "batch",
+        "show" => "showArg", "expire" => "expireArg",
         _ => "lit",
     }
 }
@@ -103,6 +104,9 @@ struct V {
     dry_reads: Vec<(String, String, usize)>,
     clock_reads: Vec<(String, String, usize)>,
     early_returns: BTreeMap<(String, String), Vec<String>>, // fn -> conditions of leading `if c { return Ok(..) }`
+    fs_writes: Vec<(String, String, usize)>,
+    module_calls: std::collections::BTreeSet<(String, String)>,
+    imports: BTreeMap<String, String>, // imported function name -> module it comes from (this file)
     seq: usize,
     in_test: bool,
     cleanup_arm: Option<&'static str>,
@@ -217,7 +221,37 @@ impl V {
     }
 }
 
+const MODULES: &[&str] = &["stream", "finalize", "migrate", "backup", "analysis", "detect", "sanity", "gitutil", "git_config", "commit", "tag",
+    "pipes", "opts", "message", "filechange", "pathutil", "limits", "error"];
+const FS_WRITES: &[&str] = &["File::create", "fs::write", "fs::remove_file", "fs::remove_dir_all", "fs::remove_dir", "fs::create_dir_all", "fs::create_dir",
+    "fs::rename", "fs::copy", "fs::set_permissions", "OpenOptions::new", "fs::hard_link", "File::create_new"];
+
+fn use_leaves(t: &syn::UseTree, prefix: &mut Vec<String>, out: &mut Vec<(Vec<String>, String)>) {
+    match t {
+        syn::UseTree::Path(p) => { prefix.push(p.ident.to_string()); use_leaves(&p.tree, prefix, out); prefix.pop(); }
+        syn::UseTree::Name(n) => out.push((prefix.clone(), n.ident.to_string())),
+        syn::UseTree::Rename(r) => out.push((prefix.clone(), r.rename.to_string())),
+        syn::UseTree::Glob(_) => out.push((prefix.clone(), "*".to_string())),
+        syn::UseTree::Group(g) => { for i in &g.items { use_leaves(i, prefix, out); } }
+    }
+}
+
 impl<'ast> Visit<'ast> for V {
+    fn visit_item_use(&mut self, u: &'ast syn::ItemUse) {
+        if self.in_test { return; }
+        let mut leaves = Vec::new();
+        use_leaves(&u.tree, &mut Vec::new(), &mut leaves);
+        for (pre, name) in leaves {
+            let pre: Vec<&str> = pre.iter().map(|x| x.as_str()).filter(|x| *x != "crate" && *x != "self" && *x != "super").collect();
+            if let Some(m) = pre.first() {
+                if MODULES.contains(m) {
+                    if name == "*" { eprintln!("extract: glob import from crate module {m} in {}.rs is not supported", self.file); std::process::exit(3) }
+                    // lower-case leaves are functions (or modules); types are not followed
+                    if name.chars().next().map_or(false, |c| c.is_lowercase()) { self.imports.insert(name, m.to_string()); }
+                }
+            }
+        }
+    }
     fn visit_item_mod(&mut self, m: &'ast syn::ItemMod) {
         let is_test = m.attrs.iter().any(|a| a.to_token_stream().to_string().contains("cfg (test)")) || m.ident == "tests" || m.ident == "verif";
         let prev = self.in_test;
@@ -359,6 +393,12 @@ impl<'ast> Visit<'ast> for V {
             let f = c.func.to_token_stream().to_string();
             if let Some(k) = self.callee_of(&f) { let g = self.guards.clone(); self.push_event(Ev::Call(k, g)); }
             let ff = f.replace(' ', "");
+            if !self.in_test {
+                if FS_WRITES.iter().any(|w| ff.ends_with(w)) { self.fs_writes.push((self.file.clone(), self.func.clone(), 0)); }
+                let segs: Vec<&str> = ff.split("::").filter(|x| *x != "crate" && *x != "self" && *x != "super").collect();
+                if segs.len() >= 2 && MODULES.contains(&segs[0]) && segs[0] != self.file { self.module_calls.insert((self.file.clone(), segs[0].to_string())); }
+                if segs.len() == 1 { if let Some(m) = self.imports.get(segs[0]) { if *m != self.file { self.module_calls.insert((self.file.clone(), m.clone())); } } }
+            }
             if ff.ends_with("File::create") {
                 let a = c.args.to_token_stream().to_string();
                 let which = if a.contains("\"ref-map\"") { "refMap" } else if a.contains("\"commit-map\"") { "commitMap" }
@@ -406,7 +446,7 @@ impl<'ast> Visit<'ast> for V {
 fn main() {
     let src_dir = std::env::args().nth(1).unwrap_or_else(|| "/repo/filter-repo-rs/src".to_string());
     let mut v = V { file: String::new(), func: String::new(), guards: vec![], sites: vec![], events: BTreeMap::new(), wait_vars: BTreeMap::new(),
-        hash_vars: vec![], hash_iter: vec![], dry_reads: vec![], clock_reads: vec![], early_returns: BTreeMap::new(), seq: 0, in_test: false, cleanup_arm: None, fn_uses_thread: false };
+        hash_vars: vec![], hash_iter: vec![], dry_reads: vec![], clock_reads: vec![], early_returns: BTreeMap::new(), fs_writes: vec![], module_calls: Default::default(), imports: BTreeMap::new(), seq: 0, in_test: false, cleanup_arm: None, fn_uses_thread: false };
     let pass = |v: &mut V, files: &Vec<std::path::PathBuf>| {
         for path in files {
             let name = path.file_stem().unwrap().to_string_lossy().to_string();
@@ -416,6 +456,7 @@ fn main() {
             file_ctor(&name);
             v.hash_vars.clear();
             v.wait_vars.clear();
+            v.imports.clear();
             v.visit_file(&ast);
         }
     };
@@ -423,7 +464,7 @@ fn main() {
     files.sort();
     // pass 1: find the generic runners (a git command whose subcommand comes from an `args` parameter)
     let mut v1 = V { file: String::new(), func: String::new(), guards: vec![], sites: vec![], events: BTreeMap::new(), wait_vars: BTreeMap::new(),
-        hash_vars: vec![], hash_iter: vec![], dry_reads: vec![], clock_reads: vec![], early_returns: BTreeMap::new(), seq: 0, in_test: false, cleanup_arm: None, fn_uses_thread: false };
+        hash_vars: vec![], hash_iter: vec![], dry_reads: vec![], clock_reads: vec![], early_returns: BTreeMap::new(), fs_writes: vec![], module_calls: Default::default(), imports: BTreeMap::new(), seq: 0, in_test: false, cleanup_arm: None, fn_uses_thread: false };
     pass(&mut v1, &files);
     for s in &v1.sites {
         let has_sub = s.args.iter().any(|a| a.as_ref().map_or(false, |l| sub_ctor(l).is_some()));
@@ -494,7 +535,10 @@ fn main() {
         for (f, func, _) in xs { *m.entry((f.clone(), func.clone())).or_insert(0) += 1; }
         m
     };
-    for (name, xs) in [("hashIterSites", &v.hash_iter), ("dryRunReads", &v.dry_reads), ("clockReads", &v.clock_reads)] {
+    out.push_str("/-- (caller file, callee file): a function of the second module is called by path or through a `use` import from the first (method calls on foreign types are not followed) -/\ndef moduleCalls : List (SrcFile × SrcFile) := [\n");
+    out.push_str(&v.module_calls.iter().map(|(a, b)| format!("  (.{}, .{})", file_ctor(a), file_ctor(b))).collect::<Vec<_>>().join(",\n"));
+    out.push_str("\n]\n\n");
+    for (name, xs) in [("hashIterSites", &v.hash_iter), ("dryRunReads", &v.dry_reads), ("clockReads", &v.clock_reads), ("fsWriteSites", &v.fs_writes)] {
         out.push_str(&format!("/-- (file, number of sites) -/\ndef {name} : List (SrcFile × Nat) := [\n"));
         let mut per_file: BTreeMap<String, usize> = BTreeMap::new();
         for ((f, _), n) in count_by(xs) { *per_file.entry(f).or_insert(0) += n; }
